@@ -289,3 +289,44 @@ func Harness_C03_q_finish_binds_last_accepted_start() {
 	}
 	verif.Reach("end")
 }
+
+// Another PAIRED controller ("Zoe", who knows her own long-term key) claims a name that is
+// not hers - another pairing's name exactly, or that name in different letter case, or a
+// name nobody has - and signs with her own key: the connection is verified only when the
+// claimed name is her own.
+func Harness_C03_q_paired_controller_claims_another_name() {
+	w := eeNewWorld()
+	alicePub, _, _ := ed25519.GenerateKey(nil)
+	zoePub, zoePriv, _ := ed25519.GenerateKey(nil)
+	w.db.SaveEntity(db.NewEntity("Alice", alicePub, nil))
+	w.db.SaveEntity(db.NewEntity("Zoe", zoePub, nil))
+	_, sess := w.connect("10.0.0.2:5000")
+	remote := "10.0.0.2:5000"
+	sk := curve25519.GeneratePrivateKey()
+	pk := curve25519.PublicKey(sk)
+	rec, _ := eePost(w.verify, "/pair-verify", remote, eeTLV(pair.TagSequence, byte(1), pair.TagPublicKey, pk[:]))
+	t := rec.tlv()
+	if t == nil || len(t.GetBytes(pair.TagPublicKey)) != 32 {
+		return
+	}
+	accEph := t.GetBytes(pair.TagPublicKey)
+	var other [32]byte
+	copy(other[:], accEph)
+	shared := curve25519.SharedSecret(sk, other)
+	key, _ := hkdf.Sha512(shared[:], []byte("Pair-Verify-Encrypt-Salt"), []byte("Pair-Verify-Encrypt-Info"))
+	names := []string{"Zoe", "Alice", "alice", "ALICE", "zoe", "Bob"}
+	claimed := names[verif.Choice("claimed-name", len(names))]
+	verif.Fact("claimed-name", claimed)
+	sig := ed25519.Sign(zoePriv, append(append(append([]byte{}, pk[:]...), []byte(claimed)...), accEph...))
+	ct, mac, _ := chacha20poly1305.EncryptAndSeal(key[:], []byte("PV-Msg03"), eeTLV(pair.TagUsername, claimed, pair.TagSignature, sig), nil)
+	rec, _ = eePost(w.verify, "/pair-verify", remote, eeTLV(pair.TagSequence, byte(3), pair.TagEncryptedData, append(ct, mac[:]...)))
+	verified := sess.Decrypter() != nil
+	if claimed == "Zoe" {
+		verif.Assert(verified, "own-name-and-own-key-verify")
+	} else {
+		verif.Assert(!verified, "a-key-stored-for-another-name-does-not-verify-the-claimed-name")
+		t2 := rec.tlv()
+		verif.Assert(rec.status >= 400 || (t2 != nil && t2.GetByte(pair.TagErrCode) != 0), "failed-finish-answered-with-an-error")
+	}
+	verif.Reach("end")
+}
